@@ -111,6 +111,15 @@ const D = {
   cmtImportSource: { once: true, group: 'cmt', tpl: (i) => `/** @jsxImportSource vue */\nconst ci${i} = 2;\n__out.k${i} = () => ci${i};` },
   cmtFragLine: { once: true, group: 'cmt', tpl: (i) => `// @jsxFrag Fragment\nconst cf${i} = 3;\n__out.k${i} = () => cf${i};` },
   cmtProse:    { once: true, group: 'cmt', tpl: (i) => `/* eslint-disable */\n/* we do not set the @jsx pragma here */\nconst cp${i} = 4;\n__out.k${i} = () => cp${i};` },
+  // two lowerings that need temporaries in one function body (a call child, then an expression-bodied arrow with one)
+  fnTwoTemps:  { tpl: (i) => `function ft${i}() { const a = <Comp>{fi(${i})}</Comp>; const g2 = (q) => <B>{gi(q)}</B>; return [a, g2(${i})]; }\n__out.k${i} = () => ft${i}();`, jsx: true },
+  fnTempArrowTemp: { tpl: (i) => `function fu${i}() { const a = <Comp>{fi(${i})}</Comp>; const g2 = () => <B>{gi(${i})}</B>; const d = <Comp>{fi(${i} + 100)}</Comp>; return [a, g2(), d]; }\n__out.k${i} = () => fu${i}();`, jsx: true },
+  // a statement that is only a string literal, not at the head of the module
+  strStmt:     { tpl: (i) => `'marker ${i}';\n__out.k${i} = () => 1;` },
+  // a tag spelled like a Fragment alias of the module but bound to something else; v-slots on a plain element
+  tagParamFragName: { tpl: (i) => `const tq${i} = (_Fragment) => <_Fragment>{x}{y}</_Fragment>;\n__out.k${i} = () => tq${i}(Comp);`, jsx: true },
+  vslotsOnElement: { tpl: (i) => `__out.k${i} = () => <div v-slots={{ foo: h1 }}>t{x}</div>;`, jsx: true },
+  vslotsThenBareJsx: { tpl: (i) => `__out.k${i} = () => <Comp v-slots={{ foo: h1 }} icon=<B id="b">inner</B>>outer</Comp>;`, jsx: true },
   // statement lists that are empty (nothing to visit in them)
   emptyFn:     { tpl: (i) => `function en${i}() {}\n__out.k${i} = () => en${i}();` },
   emptyClassMethod: { tpl: (i) => `class Ec${i} { m() {} static {} }\n__out.k${i} = () => new Ec${i}().m();` },
@@ -195,6 +204,7 @@ const T = {
   dcThreeArgs: (i) => `const DT${i} = defineComponent((props: { a: string }) => () => null, uo, 'extra');\n__out.k${i} = () => 1;`,
   dcThreeArgsTyped: (i) => `const DV${i} = defineComponent((props: { a: string }, ctx: SetupContext<{ (e: 'x'): void }>) => () => null, uo as any, ...([] as any[]));\n__out.k${i} = () => 1;`,
   dcShadowParam: (i) => `function sh${i}(defineComponent: any) { const Inner = defineComponent((props: { a: string }) => () => null); return Inner; }\n__out.k${i} = () => typeof sh${i};`,
+  dcWrappedOpts: (i) => `const DW2${i} = defineComponent((props: { a: string }) => () => null, { inheritAttrs: false } as any);\nconst DW3${i} = defineComponent((props: { b: number }) => () => null, ({ inheritAttrs: false }) satisfies object);\n__out.k${i} = () => 1;`,
   dcNoArgs:  (i) => `const DN${i} = (defineComponent as any)();\nlet dn${i};\ndn${i} = defineComponent();\n__out.k${i} = () => 1;`.replace('(defineComponent as any)()', 'defineComponent()'),
   dcOddArgs: (i) => `const DO2${i} = defineComponent(null, undefined);\nconst DO3${i} = defineComponent(...[]);\nconst DO4${i} = defineComponent(uo);\n__out.k${i} = () => 1;`,
   exportDc:  (i) => `export const ED${i} = defineComponent((props: { a: string }) => null, { name: 'Own' });\n__out.k${i} = () => 1;`,
@@ -210,7 +220,7 @@ function itemSrc(item, i) {
 }
 function itemKey(item) { return item.t ? 'T:' + item.t : item.d ? 'D:' + item.d : `${item.k}∘${item.l}`; }
 const T_JSX = new Set(['dcJsxDefault', 'dcJsxDynDefault', 'dcProps', 'dcEmits', 'typedArrow', 'genericArrow', 'asyncTyped']);
-const T_DC = new Set(['dcNoArgs', 'dcOddArgs', 'dcDupAny', 'dcInterUnknown', 'dcThreeArgs', 'dcThreeArgsTyped', 'dcProps', 'dcIface', 'dcIdentOpts', 'dcEmits', 'dcDefault', 'dcDynDefault', 'dcSpreadDefault', 'dcOwnPropsDynDefault', 'dcJsxDefault', 'dcJsxDynDefault', 'callDc', 'exportDc']);
+const T_DC = new Set(['dcWrappedOpts', 'dcNoArgs', 'dcOddArgs', 'dcDupAny', 'dcInterUnknown', 'dcThreeArgs', 'dcThreeArgsTyped', 'dcProps', 'dcIface', 'dcIdentOpts', 'dcEmits', 'dcDefault', 'dcDynDefault', 'dcSpreadDefault', 'dcOwnPropsDynDefault', 'dcJsxDefault', 'dcJsxDynDefault', 'callDc', 'exportDc']);
 function itemHasJsx(item) { return item.t ? T_JSX.has(item.t) : item.d ? !!D[item.d].jsx : true; }
 function itemAugmentable(item) { return !!item.t && T_DC.has(item.t); }
 
